@@ -93,6 +93,9 @@ func c11(r *Report) {
 	rv := one(anonCalling(p.Func(rev, "StatusList2021", "Revoke"), Fn(rev, "StatusList2021", "updateCredential")))
 	c11Order(r, "C11.revoke.lock-then-insert-then-rebuild", rv, []Callee{Fn(rev, "", "lockCredentialRecord"), gormModel("Create", "revocationRecord"), Fn(rev, "StatusList2021", "updateCredential"), gormModel("Create", "credentialRecord")})
 	r.Gate(Gate{ID: "C11.revoke.insert-gates-rebuild", Fn: rv, Effect: CallEffect(Fn(rev, "StatusList2021", "updateCredential")), Check: Check{Desc: "tx.Create(&revocation).Error == nil", Pass: ErrNil, Values: dbErrorOf(gormModel("Create", "revocationRecord"))}})
+	// a revocation is effective or Revoke fails: the transaction succeeds only if the list was rebuilt and the rebuilt list was stored
+	r.Gate(Gate{ID: "C11.revoke.effective-or-fails.rebuilt", Fn: rv, Effect: SuccessReturn(), Check: ErrCheck(Fn(rev, "StatusList2021", "updateCredential"))})
+	r.Gate(Gate{ID: "C11.revoke.effective-or-fails.stored", Fn: rv, Effect: SuccessReturn(), Check: Check{Desc: "tx.Create(credRecord).Error == nil", Pass: ErrNil, Values: dbErrorOf(gormModel("Create", "credentialRecord"))}})
 	r.Gate(Gate{ID: "C11.revoke.lock-gates", Fn: rv, Effect: CallEffect(gormModel("Create", "revocationRecord")), Check: ErrCheck(Fn(rev, "", "lockCredentialRecord"))})
 	r.Gate(Gate{ID: "C11.revoke.index-in-range", Fn: rv, Effect: CallEffect(Fn(rev, "StatusList2021", "updateCredential")), Check: CmpCheck("statusListIndex <= LastIssuedIndex", token.LEQ, AnyV(), FieldV("credentialIssuerRecord", "LastIssuedIndex"), true)})
 	// Entry: locking read inside the transaction; retry only on duplicated key
